@@ -1,6 +1,10 @@
 ---------------------------- MODULE MC_BTreeZone ----------------------------
-(* Bounded instance of BTreeZone for exhaustive model checking (C20). *)
-EXTENDS BTreeZone, BTZNames
+(* Bounded instances of BTreeZone for exhaustive model checking (C20).
+   1. Spec (histories): loads and update transactions within MaxTxns / MaxOps.
+   2. ShapeSpec: EVERY content shape over a name set -- each non-apex name is absent,
+      owns only non-NS data, or owns NS -- which is everything the derived state depends
+      on; the laws are therefore checked for all contents over the universe. *)
+EXTENDS BTZNames
 
 (* zones a load may install: flat, one cut with glue, nested cuts of depth 2 and 3 *)
 Z_flat == {SOA, ApexNS, <<n_ns, "A", 1>>, <<n_f, "A", 1>>, <<n_bc, "TXT", 1>>}
@@ -8,7 +12,21 @@ Z_cut == {SOA, ApexNS, <<n_d, "NS", 1>>, <<n_xd, "A", 1>>, <<n_ed, "A", 1>>, <<n
 Z_nest == {SOA, ApexNS, <<n_d, "NS", 1>>, <<n_xd, "NS", 1>>, <<n_yxd, "A", 1>>, <<n_bc, "A", 1>>}
 Z_deep == {SOA, ApexNS, <<n_d, "A", 1>>, <<n_xd, "NS", 1>>, <<n_yxd, "NS", 1>>, <<n_ed, "NS", 1>>}
 MCLoadSets == {Z_flat, Z_cut, Z_nest, Z_deep}
-MCLoadSmall == {Z_nest}
 
-ASSUME OrderLaws(UQueries)
+CONSTANT ShapeNames
+ShapeInit == /\ content = EmptyContent /\ working = EmptyContent
+             /\ mode = "pick-ns" /\ nops = 0 /\ ntxn = 0
+ShapeNext ==
+    \/ /\ mode = "pick-ns"
+       /\ \E N \in SUBSET (ShapeNames \ {Apex}) :
+             working' = ContentOf({<<n, "NS", 1>> : n \in N} \cup {ApexNS})
+       /\ mode' = "pick-other" /\ UNCHANGED <<content, nops, ntxn>>
+    \/ /\ mode = "pick-other"
+       /\ \E A \in SUBSET (ShapeNames \ Nodes(working)) :
+             content' = ContentOf({<<n, "NS", 1>> : n \in Nodes(working)} \cup {<<n, "A", 1>> : n \in A} \cup {SOA})
+       /\ mode' = "idle" /\ working' = EmptyContent /\ UNCHANGED <<nops, ntxn>>
+ShapeSpec == ShapeInit /\ [][ShapeNext]_vars
+
+ASSUME OrderLaws(WQueries)
+ASSUME TableOK
 =============================================================================
